@@ -5,7 +5,7 @@
    correlation is property C04, and the nine models without analytic spectrum are explored only. *)
 From Coq Require Import Reals ZArith List Bool.
 From Coquelicot Require Import Coquelicot.
-From GS Require Import Num Loops RInst C02_Bochner C02_BochnerInt C02_Model C02_RInst C02_Proofs C02_Linear.
+From GS Require Import Num Loops Formulas RInst Formulas_gen C02_Bochner C02_BochnerInt C02_Model C02_RInst C02_Proofs C02_Linear C02_Tie.
 Import ListNotations.
 Open Scope R_scope.
 
@@ -48,11 +48,12 @@ Theorem C02_mixture_int_psd : forall (d : nat) (a b : R) (w : R -> R) (Kt : R ->
 Proof. exact mixture_int_psd. Qed.
 Print Assumptions C02_mixture_int_psd.
 
-(* 2d. a class WITHOUT analytic spectrum, proved valid where it claims validity: the code's Linear.cor at any
+(* 2d. a class WITHOUT analytic spectrum, proved valid where it claims validity: the source's Linear.cor (as translated
+       on this run, Formulas_gen.Linear_cor) at any
        length scale is valid in 1-D (it is the overlap length of two unit intervals = a mixture of rank-one kernels) *)
 Theorem C02_linear_model_valid_1d : forall ora (ell : R) (pts : list (R * vec)), 0 < ell ->
   List.Forall (fun p => length (snd p) = 1%nat) pts ->
-  0 <= qform (fun x y => cor_linear (Rops02 ora) (nth 0 (vsub x y) 0 / ell)) pts.
+  0 <= qform (fun x y => Linear_cor (Rops02 ora) (nth 0 (vsub x y) 0 / ell)) pts.
 Proof. intros ora ell pts Hl Hd. exact (linear_cor_valid_1d ora ell Hl pts Hd). Qed.
 Print Assumptions C02_linear_model_valid_1d.
 
@@ -105,44 +106,109 @@ Theorem C02_defaults_in_bounds : forall ora (c : cls) (dim : Z), (1 <= dim <= 99
 Proof. exact defaults_in_bounds. Qed.
 Print Assumptions C02_defaults_in_bounds.
 
-(* 7. the code's analytic spectral densities are non-negative for every wave number, every dimension
-      and every parameter inside the bounds.  [ora] is scipy; only the displayed sign facts are assumed. *)
+(* 7. TIE: the hand model (c02/C02_Model.v, executed against /repo) equals, for every number type, the formulas
+      translated from the source on this run (gen/Formulas_gen.v).  [dim] is instantiated with nofZ O dim. *)
+Theorem C02_tie_Gaussian_cor : forall T (O : NumOps T) h, Gaussian_cor O h = cor_gaussian O h.
+Proof. exact @Gaussian_cor_tie. Qed.
+Print Assumptions C02_tie_Gaussian_cor.
+Theorem C02_tie_Exponential_cor : forall T (O : NumOps T) h, Exponential_cor O h = cor_exponential O h.
+Proof. exact @Exponential_cor_tie. Qed.
+Print Assumptions C02_tie_Exponential_cor.
+Theorem C02_tie_Stable_cor : forall T (O : NumOps T) alpha h, Stable_cor O alpha h = cor_stable O alpha h.
+Proof. exact @Stable_cor_tie. Qed.
+Print Assumptions C02_tie_Stable_cor.
+Theorem C02_tie_Rational_cor : forall T (O : NumOps T) alpha h, Rational_cor O alpha h = cor_rational O alpha h.
+Proof. exact @Rational_cor_tie. Qed.
+Print Assumptions C02_tie_Rational_cor.
+Theorem C02_tie_Cubic_cor : forall T (O : NumOps T) h, Cubic_cor O h = cor_cubic O h.
+Proof. exact @Cubic_cor_tie. Qed.
+Print Assumptions C02_tie_Cubic_cor.
+Theorem C02_tie_Linear_cor : forall T (O : NumOps T) h, Linear_cor O h = cor_linear O h.
+Proof. exact @Linear_cor_tie. Qed.
+Print Assumptions C02_tie_Linear_cor.
+Theorem C02_tie_Circular_cor : forall T (O : NumOps T) h, Circular_cor O h = cor_circular O h.
+Proof. exact @Circular_cor_tie. Qed.
+Print Assumptions C02_tie_Circular_cor.
+Theorem C02_tie_Spherical_cor : forall T (O : NumOps T) h, Spherical_cor O h = cor_spherical O h.
+Proof. exact @Spherical_cor_tie. Qed.
+Print Assumptions C02_tie_Spherical_cor.
+Theorem C02_tie_TPLSimple_cor : forall T (O : NumOps T) nu h, TPLSimple_cor O nu h = cor_tplsimple O nu h.
+Proof. exact @TPLSimple_cor_tie. Qed.
+Print Assumptions C02_tie_TPLSimple_cor.
+Theorem C02_tie_Gaussian_spectral_density : forall T (O : NumOps T) dim ell k,
+  Gaussian_spectral_density O ell (nofZ O dim) k = sd_gaussian O dim ell k.
+Proof. exact @Gaussian_spectral_density_tie. Qed.
+Print Assumptions C02_tie_Gaussian_spectral_density.
+Theorem C02_tie_Exponential_spectral_density : forall T (O : NumOps T) dim ell k,
+  Exponential_spectral_density O ell (nofZ O dim) k = sd_exponential O dim ell k.
+Proof. exact @Exponential_spectral_density_tie. Qed.
+Print Assumptions C02_tie_Exponential_spectral_density.
+Theorem C02_tie_Matern_spectral_density : forall T (O : NumOps T) dim ell nu k,
+  Matern_spectral_density O ell nu (nofZ O dim) k = sd_matern O dim ell nu k.
+Proof. exact @Matern_spectral_density_tie. Qed.
+Print Assumptions C02_tie_Matern_spectral_density.
+Theorem C02_tie_Integral_spectral_density : forall T (O : NumOps T) dim ell nu k,
+  Integral_spectral_density O ell (nofZ O dim) nu k = sd_integral O dim ell nu k.
+Proof. exact @Integral_spectral_density_tie. Qed.
+Print Assumptions C02_tie_Integral_spectral_density.
+Theorem C02_tie_HyperSpherical_spectral_density : forall T (O : NumOps T) dim ell k,
+  HyperSpherical_spectral_density O ell (nofZ O dim) k = sd_hyperspherical O dim ell k.
+Proof. exact @HyperSpherical_spectral_density_tie. Qed.
+Print Assumptions C02_tie_HyperSpherical_spectral_density.
+Theorem C02_tie_JBessel_spectral_density : forall T (O : NumOps T) dim ell nu k,
+  JBessel_spectral_density O ell (nofZ O dim) nu k = sd_jbessel O dim ell nu k.
+Proof. exact @JBessel_spectral_density_tie. Qed.
+Print Assumptions C02_tie_JBessel_spectral_density.
+Theorem C02_tie_tpl_exp_spec_dens : forall T (O : NumOps T) dim ell hurst len_low k,
+  tpl_exp_spec_dens O k (nofZ O dim) ell hurst len_low = sd_tplexp O dim ell hurst len_low k
+  /\ TPLExponential_spectral_density O (nofZ O dim) ell hurst len_low k = sd_tplexp O dim ell hurst len_low k.
+Proof. intros. split; [apply tpl_exp_spec_dens_tie|apply TPLExponential_spectral_density_tie]. Qed.
+Print Assumptions C02_tie_tpl_exp_spec_dens.
+Theorem C02_tie_tpl_gau_spec_dens : forall T (O : NumOps T) dim ell hurst len_low k,
+  tpl_gau_spec_dens O k (nofZ O dim) ell hurst len_low = sd_tplgau O dim ell hurst len_low k
+  /\ TPLGaussian_spectral_density O (nofZ O dim) ell hurst len_low k = sd_tplgau O dim ell hurst len_low k.
+Proof. intros. split; [apply tpl_gau_spec_dens_tie|apply TPLGaussian_spectral_density_tie]. Qed.
+Print Assumptions C02_tie_tpl_gau_spec_dens.
+
+(* 8. the SOURCE's analytic spectral densities (Formulas_gen.*, translated from /repo on this run) are non-negative for
+      every wave number, every dimension and every parameter inside the bounds.  [ora] is scipy / gstools.tools.special;
+      only the displayed sign facts are assumed of it. *)
 Theorem C02_spectrum_nonneg_Gaussian : forall ora (dim : Z) (ell k : R),
-  0 < ell -> 0 <= sd_gaussian (Rops02 ora) dim ell k.
-Proof. exact sd_gaussian_nonneg. Qed.
+  0 < ell -> 0 <= Gaussian_spectral_density (Rops02 ora) ell (IZR dim) k.
+Proof. intros ora dim ell k. rewrite (Gaussian_spectral_density_tie (Rops02 ora) dim). apply sd_gaussian_nonneg. Qed.
 Print Assumptions C02_spectrum_nonneg_Gaussian.
 
 Theorem C02_spectrum_nonneg_Exponential : forall ora (dim : Z) (ell k : R),
   (forall x, 0 < x -> 0 < ora ORA_GAMMA [x]) ->
-  (1 <= dim)%Z -> 0 < ell -> 0 <= sd_exponential (Rops02 ora) dim ell k.
-Proof. exact sd_exponential_nonneg. Qed.
+  (1 <= dim)%Z -> 0 < ell -> 0 <= Exponential_spectral_density (Rops02 ora) ell (IZR dim) k.
+Proof. intros ora dim ell k. rewrite (Exponential_spectral_density_tie (Rops02 ora) dim). apply sd_exponential_nonneg. Qed.
 Print Assumptions C02_spectrum_nonneg_Exponential.
 
 Theorem C02_spectrum_nonneg_Matern : forall ora (dim : Z) (ell nu k : R),
-  0 < ell -> 0 <= sd_matern (Rops02 ora) dim ell nu k.
-Proof. exact sd_matern_nonneg. Qed.
+  0 < ell -> 0 <= Matern_spectral_density (Rops02 ora) ell nu (IZR dim) k.
+Proof. intros ora dim ell nu k. rewrite (Matern_spectral_density_tie (Rops02 ora) dim). apply sd_matern_nonneg. Qed.
 Print Assumptions C02_spectrum_nonneg_Matern.
 
 Theorem C02_spectrum_nonneg_Integral : forall ora (dim : Z) (ell nu k : R),
-  (forall x, 0 < x -> 0 < ora ORA_GAMMA [x]) ->
   (forall s x, 0 < s -> 0 <= x -> 0 <= ora ORA_INCGAMMA_LOW [s; x]) ->
-  (1 <= dim)%Z -> 0 < ell -> 0 < nu -> 0 <= sd_integral (Rops02 ora) dim ell nu k.
-Proof. exact sd_integral_nonneg. Qed.
+  (1 <= dim)%Z -> 0 < ell -> 0 < nu -> 0 <= Integral_spectral_density (Rops02 ora) ell (IZR dim) nu k.
+Proof. intros ora dim ell nu k. rewrite (Integral_spectral_density_tie (Rops02 ora) dim). apply sd_integral_nonneg. Qed.
 Print Assumptions C02_spectrum_nonneg_Integral.
 
 Theorem C02_spectrum_nonneg_HyperSpherical : forall ora (dim : Z) (ell k : R),
   (forall x, 0 < x -> 0 < ora ORA_GAMMA [x]) ->
-  (1 <= dim)%Z -> 0 < ell -> 0 <= k -> 0 <= sd_hyperspherical (Rops02 ora) dim ell k.
-Proof. exact sd_hyperspherical_nonneg. Qed.
+  (1 <= dim)%Z -> 0 < ell -> 0 <= k -> 0 <= HyperSpherical_spectral_density (Rops02 ora) ell (IZR dim) k.
+Proof. intros ora dim ell k. rewrite (HyperSpherical_spectral_density_tie (Rops02 ora) dim). apply sd_hyperspherical_nonneg. Qed.
 Print Assumptions C02_spectrum_nonneg_HyperSpherical.
 
 (* JBessel: inside the dimension-dependent bound nu >= dim/2 - 1 (edge included) *)
 Theorem C02_spectrum_nonneg_JBessel : forall ora (dim : Z) (ell nu k : R),
   (forall x, 0 < x -> 0 < ora ORA_GAMMA [x]) ->
   (1 <= dim)%Z -> in_bounds (Rops02 ora) (cc (IZR dim / 2 - 1) 50) nu = true ->
-  0 < ell -> 0 <= k -> 0 <= sd_jbessel (Rops02 ora) dim ell nu k.
+  0 < ell -> 0 <= k -> 0 <= JBessel_spectral_density (Rops02 ora) ell (IZR dim) nu k.
 Proof.
   intros ora dim ell nu k HG Hd Hb Hl Hk. apply (in_bounds_cc ora) in Hb.
+  rewrite (JBessel_spectral_density_tie (Rops02 ora) dim).
   apply sd_jbessel_nonneg; try assumption. apply Hb.
 Qed.
 Print Assumptions C02_spectrum_nonneg_JBessel.
@@ -151,51 +217,54 @@ Theorem C02_spectrum_nonneg_TPLExponential : forall ora (dim : Z) (ell hurst len
   (forall x, 0 < x -> 0 < ora ORA_GAMMA [x]) ->
   (forall a b c x, 0 < a -> 0 < b -> 0 < c -> 0 <= x < 1 -> 0 <= ora ORA_HYP2F1 [a; b; c; x]) ->
   (1 <= dim)%Z -> 0 < ell -> 0 < hurst -> len_low = 0 ->
-  0 <= sd_tplexp (Rops02 ora) dim ell hurst len_low k.
-Proof. exact sd_tplexp_nonneg. Qed.
+  0 <= TPLExponential_spectral_density (Rops02 ora) (IZR dim) ell hurst len_low k.
+Proof.
+  intros ora dim ell hurst len_low k. rewrite (TPLExponential_spectral_density_tie (Rops02 ora) dim). apply sd_tplexp_nonneg.
+Qed.
 Print Assumptions C02_spectrum_nonneg_TPLExponential.
 
 Theorem C02_spectrum_nonneg_TPLGaussian : forall ora (dim : Z) (ell hurst len_low k : R),
-  (forall x, 0 < x -> 0 < ora ORA_GAMMA [x]) ->
   (forall s x, 0 < s -> 0 <= x -> 0 <= ora ORA_INCGAMMA_LOW [s; x]) ->
   (1 <= dim)%Z -> 0 < ell -> 0 < hurst -> len_low = 0 ->
-  0 <= sd_tplgau (Rops02 ora) dim ell hurst len_low k.
-Proof. exact sd_tplgau_nonneg. Qed.
+  0 <= TPLGaussian_spectral_density (Rops02 ora) (IZR dim) ell hurst len_low k.
+Proof.
+  intros ora dim ell hurst len_low k. rewrite (TPLGaussian_spectral_density_tie (Rops02 ora) dim). apply sd_tplgau_nonneg.
+Qed.
 Print Assumptions C02_spectrum_nonneg_TPLGaussian.
 
-(* 8. elementary correlations: 1 at zero lag, never above 1 in magnitude *)
+(* 9. the source's elementary correlations: 1 at zero lag, never above 1 in magnitude *)
 Theorem C02_cor_at_zero_one : forall ora,
   let O := Rops02 ora in
-  cor_gaussian O 0 = 1 /\ cor_exponential O 0 = 1 /\ (forall a, 0 < a -> cor_stable O a 0 = 1)
-  /\ (forall a, a <> 0 -> cor_rational O a 0 = 1) /\ cor_cubic O 0 = 1 /\ cor_linear O 0 = 1
-  /\ cor_spherical O 0 = 1 /\ cor_circular O 0 = 1 /\ (forall nu, cor_tplsimple O nu 0 = 1).
+  Gaussian_cor O 0 = 1 /\ Exponential_cor O 0 = 1 /\ (forall a, 0 < a -> Stable_cor O a 0 = 1)
+  /\ (forall a, a <> 0 -> Rational_cor O a 0 = 1) /\ Cubic_cor O 0 = 1 /\ Linear_cor O 0 = 1
+  /\ Spherical_cor O 0 = 1 /\ Circular_cor O 0 = 1 /\ (forall nu, TPLSimple_cor O nu 0 = 1).
 Proof. exact cor_at_zero_one. Qed.
 Print Assumptions C02_cor_at_zero_one.
 
-Theorem C02_cor_bounded_Gaussian : forall ora h, Rabs (cor_gaussian (Rops02 ora) h) <= 1.
+Theorem C02_cor_bounded_Gaussian : forall ora h, Rabs (Gaussian_cor (Rops02 ora) h) <= 1.
 Proof. exact cor_bounded_gaussian. Qed.
 Print Assumptions C02_cor_bounded_Gaussian.
-Theorem C02_cor_bounded_Exponential : forall ora h, 0 <= h -> Rabs (cor_exponential (Rops02 ora) h) <= 1.
+Theorem C02_cor_bounded_Exponential : forall ora h, 0 <= h -> Rabs (Exponential_cor (Rops02 ora) h) <= 1.
 Proof. exact cor_bounded_exponential. Qed.
 Print Assumptions C02_cor_bounded_Exponential.
-Theorem C02_cor_bounded_Stable : forall ora alpha h, 0 < alpha -> 0 <= h -> Rabs (cor_stable (Rops02 ora) alpha h) <= 1.
+Theorem C02_cor_bounded_Stable : forall ora alpha h, 0 < alpha -> 0 <= h -> Rabs (Stable_cor (Rops02 ora) alpha h) <= 1.
 Proof. exact cor_bounded_stable. Qed.
 Print Assumptions C02_cor_bounded_Stable.
-Theorem C02_cor_bounded_Rational : forall ora alpha h, 0 < alpha -> Rabs (cor_rational (Rops02 ora) alpha h) <= 1.
+Theorem C02_cor_bounded_Rational : forall ora alpha h, 0 < alpha -> Rabs (Rational_cor (Rops02 ora) alpha h) <= 1.
 Proof. exact cor_bounded_rational. Qed.
 Print Assumptions C02_cor_bounded_Rational.
-Theorem C02_cor_bounded_Cubic : forall ora h, Rabs (cor_cubic (Rops02 ora) h) <= 1.
+Theorem C02_cor_bounded_Cubic : forall ora h, Rabs (Cubic_cor (Rops02 ora) h) <= 1.
 Proof. exact cor_bounded_cubic. Qed.
 Print Assumptions C02_cor_bounded_Cubic.
-Theorem C02_cor_bounded_Linear : forall ora h, Rabs (cor_linear (Rops02 ora) h) <= 1.
+Theorem C02_cor_bounded_Linear : forall ora h, Rabs (Linear_cor (Rops02 ora) h) <= 1.
 Proof. exact cor_bounded_linear. Qed.
 Print Assumptions C02_cor_bounded_Linear.
-Theorem C02_cor_bounded_Spherical : forall ora h, Rabs (cor_spherical (Rops02 ora) h) <= 1.
+Theorem C02_cor_bounded_Spherical : forall ora h, Rabs (Spherical_cor (Rops02 ora) h) <= 1.
 Proof. exact cor_bounded_spherical. Qed.
 Print Assumptions C02_cor_bounded_Spherical.
-Theorem C02_cor_bounded_Circular : forall ora h, Rabs (cor_circular (Rops02 ora) h) <= 1.
+Theorem C02_cor_bounded_Circular : forall ora h, Rabs (Circular_cor (Rops02 ora) h) <= 1.
 Proof. exact cor_bounded_circular. Qed.
 Print Assumptions C02_cor_bounded_Circular.
-Theorem C02_cor_bounded_TPLSimple : forall ora nu h, 0 < nu -> Rabs (cor_tplsimple (Rops02 ora) nu h) <= 1.
+Theorem C02_cor_bounded_TPLSimple : forall ora nu h, 0 < nu -> Rabs (TPLSimple_cor (Rops02 ora) nu h) <= 1.
 Proof. exact cor_bounded_tplsimple. Qed.
 Print Assumptions C02_cor_bounded_TPLSimple.
